@@ -919,7 +919,7 @@ def main():
     for i in range(start, len(jobs)):
         f, k = jobs[i]; v = VAL[k]
         print(json.dumps({"start": i, "kind": f.__name__, "fault": k}), flush=True)
-        if f.__name__ == "bincount" and abs(v) > 1000:
+        if f.__name__ == "bincount" and v > 1000:
             res = "skipped(grows)"
         else:
             try:
@@ -1060,6 +1060,29 @@ def facts(repo: Path | None = None):
     repo = Path(repo) if repo is not None else REPO
     mods, funcs = analyse(repo)
     return classify(mods, funcs)
+
+
+def entry_roots(sites: list[Site]) -> dict:
+    """entry point -> {"label": {root: kinds}, "score": {root: kinds}, "k": {root: kinds}}:
+    label  = raw (unconstructed) roots of index operands: user values that reach a kernel as indices
+    score  = roots that reach a kernel only through `searchsorted` (threshold bucketing → histc / index)
+    k      = roots of a `topk` operand."""
+    out: dict = {}
+    for s in sites:
+        o = getattr(s, "_origin", None)
+        for e in s.entries:
+            d = out.setdefault(e, {"label": {}, "score": {}, "k": {}})
+            if s.kind == "topk":
+                for r in ([x for x, _ in o.paths] if o else s.raw_roots):
+                    d["k"].setdefault(r, set()).add(s.kind)
+                continue
+            for r in s.raw_roots:
+                d["label"].setdefault(r, set()).add(s.kind)
+            if o is not None:
+                for r, chain in o.paths:
+                    if "searchsorted" in chain:
+                        d["score"].setdefault(r, set()).add(s.kind)
+    return out
 
 
 _PROBE_CACHE: dict | None = None
